@@ -60,6 +60,8 @@ end
 /-- structural equality of two values -/
 def Eqv (cfg : Cfg) (a b : Val) : Prop := eqvF cfg (depth a + 1) a b = true
 
+instance (cfg : Cfg) (a b : Val) : Decidable (Eqv cfg a b) := by unfold Eqv; infer_instance
+
 mutual
 /-- every cache cell is empty -/
 def noCache : Val → Bool
